@@ -52,12 +52,12 @@ CHECKS = {
     'C04': dict(
         engine='tlc+simzmq', technique='TLA+ protocol spec (OFP.tla) model-checked by TLC; TLC counterexamples of design mutations and -simulate behaviours replayed into the real Filter/MQ/ZMQ classes on a simulated network with state comparison; property observers on real executions',
         design_ref='DESIGN.md 2.1, 3, 4, 5/C04',
-        text="TLC proves, with Stall(consumer) enabled at every reachable state and connections that never time out, that a publisher publishes at most 5 (sole consumer) / 6 (consumer behind a relay) further frames towards a stalled synchronized consumer (C04_Tight5/6, far inside the property's single-digit bound C04_Bounded) under zero-latency and prompt scheduling; the mutated design that does not clear `requested` on publish yields a TLC schedule that is replayed on the real code; -simulate behaviours with stalls are replayed with state comparison; on the real pipeline a consumer is stalled at seeded random steps in four topology positions (sole, one of two, behind a relay, the relay itself, slow relay) and the run continues for 1500-2500 steps: the number of distinct frames its direct publisher publishes on that output after the stall must stay <= 9.",
+        text="TLC proves, with Stall(consumer) enabled at every reachable state and connections that never time out, that a publisher publishes at most 5 (sole consumer) / 6 (consumer behind a relay) further frames towards a stalled synchronized consumer (C04_Tight5/6, far inside the property's single-digit bound C04_Bounded) under zero-latency and prompt scheduling; the mutated design that does not clear `requested` on publish yields a TLC schedule that is replayed on the real code; -simulate behaviours with stalls are replayed with state comparison; on the real pipeline a consumer is stalled at seeded random steps in four topology positions (sole, one of two, behind a relay, the relay itself, slow relay) and the run continues for 1500-2500 steps: the number of distinct frames its direct publisher publishes on that output after the stall must stay <= 9 (also with a publisher bound to two addresses, an ephemeral source listed first, a slow producer, a '?' listener on the stalled worker's endpoint of a balanced splitter, and a publisher that is an application using the blocking send()). Blocking applications (OFP!Blocking: recv()/send() with timeout=None, time passing in poll(None) as SBlockTick) with connection time-outs: TLC proves C04_NoEarlyEvict (a client is dropped as timed out only after ZMQ_CONN_TIMEOUT of silence, however long one send() call lasts); the TLC counterexamples of the design mutations stale_t (one clock read per send() call) and bal_eph_reenables (a listener after a worker re-enables a balanced endpoint) are replayed on the real sender, whose time-out evictions are observed against its own clock.",
         note='the real ZeroMQ library is replaced by vlib/simzmq.py (FIFO per connection, atomic multipart, PUB drops at the high-water mark, PUSH pipe from connect(), slow joiner); exhaustive model checking for small constants (2-5 filters, 2-9 frames), larger pipelines sampled; Filter.Runner / multi-process supervision not modelled (filters run as cooperative tasks of one deterministic scheduler)'),
     'C05': dict(
         engine='tlc+simzmq', technique='TLA+ protocol spec (OFP.tla) model-checked by TLC; TLC counterexamples of design mutations and -simulate behaviours replayed into the real Filter/MQ/ZMQ classes on a simulated network with state comparison; property observers on real executions',
         design_ref='DESIGN.md 2.1, 3, 4, 5/C05',
-        text="TLC proves on OFP.tla, for a publisher with synchronized, ? and ?? consumers and for an ephemeral branch rejoined as an ephemeral source, that ephemeral sets are complete for their subscription and ordered (C05_EphComplete), that the publish guard never waits for an ephemeral client (C05_GuardSync), that a ?? connection never carries a request (TypeOK), and that the synchronized sinks keep C01/C02 (and C03 with required outputs) whatever the ephemeral consumers do (slow, stalled, killed); -simulate behaviours incl. stall/kill of the ephemeral consumers are replayed with state comparison; random schedules with observers; a differential on the real code under the global virtual clock: the same pipeline with and without its ephemeral consumers (running, stalled forever, killed) - the publisher's publish times must not be later and every synchronized sink's input sequence must be identical.",
+        text="TLC proves on OFP.tla, for a publisher with synchronized, ? and ?? consumers and for an ephemeral branch rejoined as an ephemeral source, that ephemeral sets are complete for their subscription and ordered (C05_EphComplete), that the publish guard never waits for an ephemeral client (C05_GuardSync), that a ?? connection never carries a request (TypeOK), and that the synchronized sinks keep C01/C02 (and C03 with required outputs) whatever the ephemeral consumers do (slow, stalled, killed); -simulate behaviours incl. stall/kill of the ephemeral consumers are replayed with state comparison; random schedules with observers; a differential on the real code under the global virtual clock: the same pipeline with and without its ephemeral consumers (running, stalled forever, killed) - the publisher's publish times must not be later and every synchronized sink's input sequence must be identical (incl. a '?' listener that attaches late to the endpoint of a slow worker of a balanced splitter whose other worker is slower than the listener). KNOWN-FINDING (open, not suppressed for other topologies): a '?' listener registered on a balanced endpoint before its worker.",
         note='the real ZeroMQ library is replaced by vlib/simzmq.py (FIFO per connection, atomic multipart, PUB drops at the high-water mark, PUSH pipe from connect(), slow joiner); exhaustive model checking for small constants (2-5 filters, 2-9 frames), larger pipelines sampled; Filter.Runner / multi-process supervision not modelled (filters run as cooperative tasks of one deterministic scheduler)'),
     'C07': dict(
         engine='tlc+simzmq', technique='TLA+ protocol spec (OFP.tla) model-checked by TLC; TLC counterexamples of design mutations and -simulate behaviours replayed into the real Filter/MQ/ZMQ classes on a simulated network with state comparison; property observers on real executions',
@@ -98,7 +98,7 @@ CHECKS = {
     'C03': dict(
         engine='tlc+simzmq', technique='TLA+ protocol spec (OFP.tla) model-checked by TLC; TLC counterexamples of design mutations and -simulate behaviours replayed into the real Filter/MQ/ZMQ classes on a simulated network with state comparison; property observers on real executions',
         design_ref='DESIGN.md 2.1, 3, 4, 5/C03',
-        text="TLC proves C03_Prefix (each filter's input sequence is a prefix of the functional composition InById/OutById of the upstream process() functions, paired by message id) under prompt / zero-latency scheduling with handshake and required outputs, and C03_Complete (liveness, strong fairness per filter) - for chain, tee, tee-rejoin, join, skipping / slow / lazy (callable) filters; mutation schedules (handshake ineffective -> first frame lost, required outputs ignored); conformance replay; prompt schedules under the global virtual clock on real Filter subclasses with the process() input logs compared with the composition and the callable's evaluation step compared with its publish step.",
+        text="TLC proves C03_Prefix (each filter's input sequence is a prefix of the functional composition InById/OutById of the upstream process() functions, paired by message id) under prompt / zero-latency scheduling with handshake and required outputs, and C03_Complete (liveness, strong fairness per filter) - for chain, tee, tee-rejoin, join, skipping / slow / lazy (callable) filters and for applications that drive MQ with the blocking calls (timeout=None) as publisher, relay or rejoin; mutation schedules (handshake ineffective -> first frame lost, required outputs ignored); conformance replay; prompt schedules under the global virtual clock on real Filter subclasses with the process() input logs compared with the composition and the callable's evaluation step compared with its publish step.",
         note='the real ZeroMQ library is replaced by vlib/simzmq.py (FIFO per connection, atomic multipart, PUB drops at the high-water mark, PUSH pipe from connect(), slow joiner); exhaustive model checking for small constants (2-5 filters, 2-4 frames), larger pipelines sampled; Filter.Runner / multi-process supervision not modelled (filters run as cooperative tasks of one deterministic scheduler)'),
     'C06': dict(
         engine='tlc+simzmq', technique='TLA+ protocol spec (OFP.tla) model-checked by TLC; TLC counterexamples of design mutations and -simulate behaviours replayed into the real Filter/MQ/ZMQ classes on a simulated network with state comparison; property observers on real executions',
